@@ -57,6 +57,7 @@ impl<'a, T> SliceCursor<'a, T> {
 pub mod clang { #[verifier::external_body] pub struct Type { _p: core::marker::PhantomData<()> } }
 pub enum IntKind { Int, Other }
 pub enum FloatKind { Float16, Float, Double, LongDouble, Float128 }
+#[derive(Clone, Copy)]
 pub struct Layout { pub size: usize, pub align: usize, pub packed: bool }
 #[verifier::external_body] pub struct Enum { _p: core::marker::PhantomData<()> }
 impl Enum {
@@ -133,6 +134,19 @@ impl Item {
     pub uninterp spec fn s_opaque(&self, ctx: &BindgenContext) -> bool;
     #[verifier::external_body] pub fn all_template_params(&self, ctx: &BindgenContext) -> (r: Vec<TypeId>) ensures r@ == self.s_all_tparams(ctx) { unimplemented!() }
     #[verifier::external_body] pub fn is_opaque(&self, ctx: &BindgenContext, _e: &()) -> (r: bool) ensures r == self.s_opaque(ctx) { unimplemented!() }
+    pub uninterp spec fn s_id(&self) -> ItemId;
+    #[verifier::external_body] pub fn id(&self) -> (r: ItemId) ensures r == self.s_id() { unimplemented!() }
+}
+
+// ---- ItemResolver (ir/context.rs): where an id ends up after following refs / aliases is an uninterpreted function of the IR
+pub struct ItemResolver { pub id: ItemId, pub refs: bool, pub aliases: bool }
+impl TypeId { pub fn into_resolver(self) -> (r: ItemResolver) ensures r == (ItemResolver { id: self.0, refs: false, aliases: false }) { ItemResolver { id: self.0, refs: false, aliases: false } } }
+impl ItemId { pub fn into_resolver(self) -> (r: ItemResolver) ensures r == (ItemResolver { id: self, refs: false, aliases: false }) { ItemResolver { id: self, refs: false, aliases: false } } }
+pub uninterp spec fn s_resolved(ctx: &BindgenContext, id: ItemId, refs: bool, aliases: bool) -> ItemId;
+impl ItemResolver {
+    pub fn through_type_refs(self) -> (r: ItemResolver) ensures r == (ItemResolver { refs: true, ..self }) { ItemResolver { id: self.id, refs: true, aliases: self.aliases } }
+    pub fn through_type_aliases(self) -> (r: ItemResolver) ensures r == (ItemResolver { aliases: true, ..self }) { ItemResolver { id: self.id, refs: self.refs, aliases: true } }
+    #[verifier::external_body] pub fn resolve<'a>(self, ctx: &'a BindgenContext) -> (r: &'a Item) ensures r.s_id() == s_resolved(ctx, self.id, self.refs, self.aliases) { unimplemented!() }
 }
 
 #[verifier::external_body]
